@@ -16,10 +16,10 @@ LEVEL = "fault_enumeration"
 RULE = (
     "cases = (problem, method, callback kind, k, exception class[, second fault]) : for each of the problems {LP, bounded "
     "NLP, constrained QP, constrained non-quadratic problem with lazily compiled Hessian, model that triggers the "
-    "SLSQP->trust-constr retry} a fault-free run counts the evaluations K of every callback kind (objective, "
+    "SLSQP->trust-constr retry, model whose objective and constraint are 420-term accumulations} a fault-free run counts the evaluations K of every callback kind (objective, "
     "gradient, each constraint function, each constraint Jacobian, Hessian) and the calls K of every CACHE-CONSTRUCTION "
     "step (compile_expression, compile_jacobian, compile_hessian, symbolic gradient, LP extractor steps: crash points "
-    "inside the construction of what the problem caches); then for EVERY k <= K of every kind "
+    "inside the construction of what the problem caches) and the calls K of every compiled closure wherever optyx makes them (also its own post-solve evaluations); then for EVERY k <= K of every kind "
     "(quick: k in {1,2,3, middle, K}), for the solver entry itself (back-end raising before any evaluation) and for "
     "linprog raising, and for every exception class in {ValueError, FloatingPointError, MemoryError, "
     "KeyboardInterrupt}, the faulted solve is run on a fresh replica; deviation bound 2 in the thorough tier (second "
@@ -63,7 +63,18 @@ def problems():
         # is answered "success" with a point that violates x + y <= 4; the retry (trust-constr) is real and faulted
         return qp()
 
+    def deep():
+        # objective and constraint accumulated term by term beyond the depth at which optyx switches algorithms
+        x, y = Variable("x", lb=-2, ub=4), Variable("y", lb=-2, ub=4)
+        e = (x - 1) ** 2
+        g = x + y
+        for i in range(1, 420):
+            e = e + ((x if i % 2 else y) - 0.01 * (i % 7)) ** 2 * 0.01
+            g = g + 0.001 * (x if i % 3 else y)
+        return Problem().minimize(e + optyx.exp(0.1 * y)).subject_to(g <= 3)
+
     return {
+        "deep-nlp": (deep, ("SLSQP", "trust-constr")),
         "lp": (lp, ("auto", "highs-ds")),
         "bounded-nlp": (bounded, ("auto", "L-BFGS-B", "trust-constr")),
         "constrained-qp": (qp, ("auto", "SLSQP", "trust-constr")),
@@ -115,7 +126,15 @@ class BuildSeam:
         for owner, name in targets:
             orig = owner.__dict__[name] if isinstance(owner, type) else getattr(owner, name)
             self.saved.append((owner, name, orig))
-            setattr(owner, name, self.counter.wrap("build:" + name, orig))
+            built = self.counter.wrap("build:" + name, orig)
+            if name.startswith("compile_"):
+                # ... and every CALL of a compiled closure is a fault point too, wherever optyx makes it (inside the
+                # back-end or in its own post-solve evaluations: feasibility check, objective at the returned point)
+                def compiling(*a, _b=built, _n=name, **kw):
+                    fn = _b(*a, **kw)
+                    return self.counter.wrap("eval:" + _n, fn) if callable(fn) else fn
+                built = compiling
+            setattr(owner, name, built)
         return self
 
     def __exit__(self, *exc):
@@ -276,7 +295,11 @@ def shards(tier, seed):
     out = []
     for pname, (build, methods) in problems().items():
         for m in methods:
-            out.append(("faults", pname, m))
+            if pname == "deep-nlp" and tier == "quick" and m != "SLSQP":
+                continue
+            nparts = 12 if pname == "deep-nlp" else 4
+            for part in range(nparts):
+                out.append(("faults", pname, m, part, nparts))
     out.append(("recursion",))
     return out
 
@@ -337,18 +360,23 @@ def explore(item, tier, seed):
             rep.violation(k, {"mode": "recursion"}, **d)
         rep.states += 1
         return rep
-    _, pname, method = item
+    _, pname, method, part, nparts = item
     counts = measure(pname, method)
-    rep.extra[f"K:{pname}:{method}"] = counts
-    rep.sample({"problem": pname, "method": method, "evaluations_per_callback_kind": counts})
+    if part == 0:
+        rep.extra[f"K:{pname}:{method}"] = counts
+        rep.sample({"problem": pname, "method": method, "evaluations_per_callback_kind": counts})
     build, methods = problems()[pname]
     plans = [("entry", 1)]
     for kind, K in sorted(counts.items()):
         plans += [(kind, k) for k in ks_for(K, tier)]
-    for kind, k in plans:
-        for cls in CLASSES:
+    todo = [(kind, k, cls) for kind, k in plans for cls in CLASSES]
+    for j, (kind, k, cls) in enumerate(todo):
+        if j % nparts != part:
+            continue
+        if True:
             faults = [(method, kind, k, cls.__name__)]
-            fs = check_fault(pname, method, faults, rep, followups=None if tier == "thorough" else (method, methods[-1]))
+            fs = check_fault(pname, method, faults, rep, followups=None if tier == "thorough" else
+                             ((method,) if pname == "deep-nlp" else (method, methods[-1])))
             rep.states += 1
             rep.nt((pname, method, kind, k, cls.__name__))
             seen = set()
@@ -356,7 +384,7 @@ def explore(item, tier, seed):
                 if kk not in seen:
                     seen.add(kk)
                     rep.violation(kk, {"mode": "fault", "problem": pname, "faults": faults}, **d)
-    if tier == "thorough":
+    if tier == "thorough" and part == 0 and pname != "deep-nlp":
         # two faults: solve 1 faulted at k1, solve 2 (possibly another method) faulted at k2
         for kind1, K1 in sorted(counts.items()):
             for m2 in methods:
